@@ -3,6 +3,9 @@ import PgModel.Json
 import PgModel.Gen
 import PgGen.C15Quirks
 import PgModel.Nsga2
+import PgModel.GenOps
+import PgModel.GenSched
+import PgModel.Neat
 open Pg Pg.C15
 
 structure EvoOps where
@@ -10,6 +13,18 @@ structure EvoOps where
   children : Nat
   update : String
   keep : Nat
+
+def rkOfJ : J → Option Pg.C14.RK
+  | .str "choice" => some .choice | .str "randint" => some .randint | .str "sample" => some .sample
+  | .str "choices" => some .choices | .str "shuffle" => some .shuffle
+  | _ => none
+
+/-- recorded PRNG draws (harness.c14.RecRandom log entries; index draws only) -/
+def evOfJ : J → Option Pg.C14.Ev
+  | .arr [.str "idx", k, .int n, .int i] => do pure (.idx (← rkOfJ k) n.toNat i.toNat)
+  | .arr [.str "idxs", k, .int n, .int c, .arr is] => do
+      pure (.idxs (← rkOfJ k) n.toNat c.toNat (← is.mapM J.asNat?))
+  | _ => none
 
 def bad (msg : String) : J := .obj [("bad_request", .str msg)]
 
@@ -141,6 +156,17 @@ def obsNsga : Algo → St → J
                 | some r => .arr ((Nsga2.objs r).map .int) | none => .null]))]
   | _, s => .obj [("np", .int s.np), ("nf", .int s.nf)]
 
+def obsNeat : Algo → St → J
+  | .evolution _ _, .evolution np nf _ _ g enc _ =>
+    let (species, pop) := Neat.decode enc
+    let dr (it : Item) : J := .arr [.int it.dna, optInt it.reward]
+    .obj [("np", .int np), ("nf", .int nf), ("gen", .int g), ("pop", .arr (pop.map itemJ)),
+          ("species", match species with
+            | none => .null
+            | some ss => .arr (ss.map fun s => .arr [match s.rep with | some r => dr r | none => .null,
+                                                   .arr (s.members.map dr)]))]
+  | _, s => .obj [("np", .int s.np), ("nf", .int s.nf)]
+
 def nextJ : Except Err Item → J
   | .error e => .str (errName e)
   | .ok it => .obj [("dna", .int it.dna), ("initial", optBool it.initial), ("gid", optNat it.gid),
@@ -151,7 +177,23 @@ def eventOfJ : J → Option Event
   | .arr [.str "f", .int i, .int r] => some (.feedback i.toNat r)
   | _ => none
 
+def pvOfJ : J → Option Sched.PV
+  | .arr [.str "const", .int c] => some (.const c)
+  | .arr [.str "step"] => some .step
+  | _ => none
+
+/-- `{"op": "sched", "phases": [[len, pv], …], "live": [steps…], "rec": [steps…]}` -/
+def handleSched (j : J) : J :=
+  let phases := ((j.getArr? "phases").getD []).filterMap fun p => match p with
+    | .arr [.int l, pv] => (pvOfJ pv).map fun v => (l.toNat, v)
+    | _ => none
+  let steps (k : String) := ((j.getArr? k).getD []).filterMap J.asNat?
+  let out (xs : List (Option Int)) : J := .arr (xs.map optInt)
+  .obj [("live", out (Sched.run stepWiseStateful phases Sched.init (steps "live"))),
+        ("rec", out (Sched.run stepWiseStateful phases Sched.init (steps "rec")))]
+
 def handle (j : J) : J :=
+  if j.getStr? "op" == some "sched" then handleSched j else
   match (j.get? "algo").bind algoOfJ, (j.getArr? "events").bind (·.mapM eventOfJ),
         j.getArr? "space", j.get? "streams", j.getNat? "m" with
   | some (algo, ops), some events, some spaceJ, some streamsJ, some m =>
@@ -169,21 +211,46 @@ def handle (j : J) : J :=
       | none => 999999
     let ops' := ops.getD ⟨"", 0, "none", 0⟩
     -- recorded reproduction (real operators): step ↦ children
-    let table : List (Nat × List Nat) := match j.get? "table" with
+    let table : List (String × List Nat) := match j.get? "table" with
       | some (.obj kvs) => kvs.filterMap fun (k, v) => do
-          let step ← k.toNat?
           let xs ← v.asArr?
-          pure (step, xs.filterMap J.asNat?)
+          pure (k, xs.filterMap J.asNat?)
       | _ => []
     let isNsga := ops'.update == "nsga2"
+    -- recorded draws of the real operators, one oracle segment per `_evolve` call (keyed by step)
+    let dims := ((j.getArr? "dims").getD []).filterMap J.asNat?
+    let evTable : List (String × List Pg.C14.Ev) := match j.get? "events_by_step" with
+      | some (.obj kvs) => kvs.filterMap fun (k, v) => do
+          let xs ← v.asArr?
+          pure (k, ← xs.mapM evOfJ)
+      | _ => []
+    -- a reproduction call is identified by its step and by the population it is applied to (a failed
+    -- `propose` is retried at the same step after more feedback)
+    let popPart (enc : List Item) : List Item :=
+      if ops'.update == "nsga2" then (Nsga2.decode enc).2
+      else if ops'.update == "neat" then (Neat.decode enc).2 else enc
+    let callKey (enc : List Item) (step : Nat) : String :=
+      let p := popPart enc
+      s!"{step}:{p.foldl (fun a it => a + it.fbseq.getD 0) 0}:{p.length}"
+    let evAt (enc : List Item) (step : Nat) : List Pg.C14.Ev :=
+      ((evTable.find? (·.1 == callKey enc step)).map (·.2)).getD []
     let repro : List Item → Nat → Nat → List Nat :=
-      if ops'.repro == "table" then fun _ _ step => ((table.find? (·.1 == step)).map (·.2)).getD []
+      if ops'.repro == "table" then
+        fun enc _ step => ((table.find? (·.1 == callKey enc step)).map (·.2)).getD []
+      else if ops'.repro == "c14reg" then
+        fun enc g step => Ops.reproOf dims (Ops.regEvoRepro dims ops'.children) (fun _ => evAt enc step) enc g step
+      else if ops'.repro == "c14hill" then
+        fun enc g step => Ops.reproOf dims (Ops.hillClimbRepro dims ops'.children) (fun _ => evAt enc step) enc g step
       else reproOf n ops'
     let update : List Item → Nat → List Item :=
-      if isNsga then Nsga2.update nsga2Facts ops'.keep else updateOf ops'
+      if isNsga then Nsga2.update nsga2Facts ops'.keep
+      else if ops'.update == "neat" then Neat.update neatFacts dims
+      else if ops'.update == "c14last" then Ops.updateOf dims (Ops.regEvoUpdate ops'.keep)
+      else if ops'.update == "c14top" then Ops.updateOf dims Ops.hillClimbUpdate
+      else updateOf ops'
     let env : Env := { space := space, draw := draw, hash := fun hid d => if hid = 0 then d + 1000000 else d % hid,
                        repro := repro, update := update, q := currentQuirks }
-    let obsJ := if isNsga then obsNsga else obsJ
+    let obsJ := if isNsga then obsNsga else if ops'.update == "neat" then obsNeat else obsJ
     let cuts := ((j.getArr? "cuts").getD []).filterMap J.asNat?
     let ks := (List.range (events.length + 1)).map fun k =>
       let live := runLive env algo (events.take k)
